@@ -107,6 +107,18 @@ CLAIMED["C13"] = dict(
          "deductive part: engine, solvers, itertools.combinations and coo_array contracts.",
     technique=TECH + " for the matrix construction; exhaustive bounded enumeration (labelled bounded) for the components",
 )
+CLAIMED["C18"] = dict(
+    level="proof",
+    text="Data flow proved by executing the real code symbolically with a heap of adapter objects: each of the eight collection "
+         "adapters' __init__ chains (including super().__init__(**kwargs)) hands the audio_dir it receives to its single "
+         "RecordingAdapter; to_aeof / to_soundevent pick each collection's own adapter and build it with the caller's audio_dir; "
+         "aoef.save/load and saver.save/loader.load pass audio_dir on unchanged; no path of aoef.save reaches write_text after a "
+         "raise. RecordingAdapter.assemble_aoef stores path.relative_to(audio_dir) (ValueError iff outside, two-sided) and "
+         "assemble_soundevent yields audio_dir / stored; lemma: saved under A, loaded under B maps A/x to B/x; None = identity.",
+    note="Trusted: engine, solvers, the pathlib algebra (assumed contract), pydantic construction contract. The JSON text and the "
+         "file system are exercised only by the bounded stand-in audio_paths (8 types x depths x names x str/Path x in/outside).",
+    technique=TECH + "; heap of adapter instances built by the real constructors; uninterpreted path algebra",
+)
 ALL = [f"C{n:02d}" for n in range(1, 21)]
 NOT_APPLICABLE = {p: "check not built yet in this session (work in progress; see DESIGN.md section 12 build order)"
                   for p in ALL if p not in CLAIMED}
